@@ -686,7 +686,8 @@ class Tables:
             name, args, kw = t[1], t[2], t[3]
             if name == "sorted" and len(args) == 1:
                 if kwget(kw, "key") is not None:
-                    raise Unsupported("sorted(..., key=...) — tie order not analysed: %s" % show(t, 2))
+                    # deterministic, but not the natural ascending order of the identifiers themselves
+                    return ("desc", "sorted(..., key=%s): ordered by a key, not by the identifiers' own order" % show(kwget(kw, "key"), 2))
                 rev = kwget(kw, "reverse", ("const", False))
                 if rev[0] != "const":
                     raise Unsupported("sorted(reverse=<non-literal>)")
@@ -720,6 +721,10 @@ class Tables:
                 return ("sorted", "Series.sort_values") if asc == ("const", True) else ("desc", "Series.sort_values(descending)")
             if m == "to_dict":
                 return self.order(recv, seen)
+            if m in ("itertuples", "iterrows", "to_records"):
+                # positional iteration over the rows of a frame: follows the frame's row order
+                st = self.order(recv, seen)
+                return st if st[0] != "sorted" else ("rows", "rows of a frame sorted by another column than the one iterated")
         if k == "attr" and t[2] in ("values", "index", "array"):
             return self.order(t[1], seen)
         if k == "sub" and t[2][0] == "slice":
